@@ -260,6 +260,13 @@ func c15Op(c *WCase, res *WResult) {
 			op = strings.TrimSuffix(op, ".append")
 		}
 		value := bytes.Repeat([]byte{0xa5, 0x5a}, 50)
+		if strings.HasSuffix(op, ".empty") { // a value of no bytes: the file holds the attribute word only
+			value = nil
+			op = strings.TrimSuffix(op, ".empty")
+		} else if strings.HasSuffix(op, ".big") {
+			value = bytes.Repeat([]byte{0xa5, 0x5a, 0x11}, 1700)
+			op = strings.TrimSuffix(op, ".big")
+		}
 		path := varPath(v.Name, v.GUID.Format())
 		if strings.HasPrefix(op, "read.") {
 			mem.MkdirAll(efivarsDir, 0o755)
@@ -356,7 +363,7 @@ func checkC15(r *mon.Run) {
 	r.Exhaustive()
 	useFakeEfivarsDir()
 	var ops []string
-	ops = append(ops, "sign.pkcs7", "sign.authenticode", "sign.authenticode.reader", "var.sign", "write.object", "write.legacy", "write.object.append", "write.legacy.append", "write.signedupdate.fs", "write.signedupdate.signer", "read.object", "read.legacy")
+	ops = append(ops, "sign.pkcs7", "sign.authenticode", "sign.authenticode.reader", "var.sign", "write.object", "write.legacy", "write.object.append", "write.legacy.append", "write.object.empty", "write.legacy.empty", "write.object.big", "write.legacy.big", "write.signedupdate.fs", "write.signedupdate.signer", "read.object", "read.legacy")
 	imgs := c15Images
 	if !r.Thorough() {
 		imgs = []string{"test.pecoff", "signed", "HelloWorld"}
